@@ -208,8 +208,9 @@ func (s *Sim) Hook(site uint32) {
 		return
 	}
 	spin := site&0x80000000 != 0
-	locked := site&0x40000000 != 0
-	site &^= 0xC0000000
+	locked := site&0x60000000 != 0
+	atomicOp := site&0x20000000 != 0 // about to perform an atomic operation: an event, but nothing is held
+	site &^= 0xE0000000
 	s.Steps++
 	if int(site) < len(s.SiteHits) {
 		s.SiteHits[site]++
@@ -232,9 +233,9 @@ func (s *Sim) Hook(site uint32) {
 						s.Preempts++
 						s.LockPreempts++
 						s.Overlaps = append(s.Overlaps, Overlap{A: t.OpKind, B: next.OpKind, Site: site})
-						// keep the lock holder off the processor for as long as
+						// keep a lock holder off the processor for as long as
 						// the others can run without it
-						t.parked = true
+						t.parked = !atomicOp
 						s.switchTo(next, 'k', site)
 						t.parked = false
 					}
